@@ -1154,8 +1154,16 @@ impl Model {
     pub fn commit(&mut self, r: &Resolved) {
         match &r.txn {
             TxnEffect::None => {
+                // UPDATE / DELETE drop the TOAST chunks of the rows they touch at once; a rollback cannot bring
+                // them back (listed finding): tag the transaction when the table held a toasted value
+                let had_long = matches!(r.kind, "UPDATE" | "DELETE")
+                    && r.table.as_ref().and_then(|n| self.tables.iter().find(|t| &t.name == n)).map(|t| t.rows.iter().any(|row| row.iter().any(is_long))).unwrap_or(false);
                 self.tables = r.after.clone();
                 if let Some(t) = self.txn.as_mut() {
+                    if had_long && r.rows_touched > 0 {
+                        let depth = t.savepoints.len();
+                        t.did.push(("rollback_of_update_or_delete_on_table_with_toasted_value", depth));
+                    }
                     if r.rows_touched > 0 {
                         let tag = match r.kind {
                             "INSERT" => "rollback_of_insert",
